@@ -3,6 +3,7 @@ package mc
 import (
 	"encoding/json"
 	"strconv"
+	"time"
 )
 
 // AllSeqs returns every sequence over 0..vals-1 of length 0..maxLen, shortest
@@ -74,6 +75,14 @@ func (b *BStr) UnmarshalJSON(data []byte) error {
 // of that case instead of stalling the check.
 func GuardT(harness string, trace any, f func() *Failure) *Failure {
 	done := InFlight(func() Case { return Case{Harness: harness, Trace: J(trace), Msg: "enumerated case"} })
+	defer done()
+	return Guard(f)
+}
+
+// GuardTL is GuardT with its own hang limit, for cases that are known to take
+// long (quadratic algorithms on tens of thousands of elements).
+func GuardTL(harness string, trace any, limit time.Duration, f func() *Failure) *Failure {
+	done := InFlightLimit(func() Case { return Case{Harness: harness, Trace: J(trace), Msg: "enumerated case"} }, limit)
 	defer done()
 	return Guard(f)
 }
@@ -151,4 +160,63 @@ func LongSeqs(vals int, lengths []int) [][]int {
 		}
 	}
 	return out
+}
+
+// HugeKinds are the shapes HugePair can build.
+var HugeKinds = []string{"equal", "insert", "delete", "change", "blockswap", "reverse-tail", "periodic", "lcg4"}
+
+// HugePair builds a pair of long sequences from a short description, so that
+// a trace for inputs of tens of thousands of elements stays a few bytes. The
+// first five kinds use pairwise distinct elements (one optimal alignment);
+// the last two use 3 or 4 values (matches everywhere).
+func HugePair(kind string, n int) (a, b []int) {
+	a = make([]int, n)
+	for i := range a {
+		a[i] = i
+	}
+	m := n / 2
+	switch kind {
+	case "equal":
+		b = append([]int(nil), a...)
+	case "insert":
+		b = append(append(append([]int(nil), a[:m]...), -1), a[m:]...)
+	case "delete":
+		b = append(append([]int(nil), a[:m]...), a[min(m+1, n):]...)
+	case "change":
+		b = append([]int(nil), a...)
+		if n > 0 {
+			b[m] = -1
+		}
+	case "blockswap":
+		b = append(append([]int(nil), a[m:]...), a[:m]...)
+	case "reverse-tail":
+		b = append([]int(nil), a...)
+		for i, j := n-min(n, 5), n-1; i < j; i, j = i+1, j-1 {
+			b[i], b[j] = b[j], b[i]
+		}
+	case "periodic":
+		b = make([]int, n+1)
+		for i := range a {
+			a[i] = i % 3
+		}
+		for i := range b {
+			b[i] = (i*i + i/7) % 3
+		}
+	case "lcg4":
+		x := uint64(n)*2654435761 + 12345
+		next := func() int {
+			x = x*6364136223846793005 + 1442695040888963407
+			return int((x >> 33) % 4)
+		}
+		b = make([]int, max(n-3, 0))
+		for i := range a {
+			a[i] = next()
+		}
+		for i := range b {
+			b[i] = next()
+		}
+	default:
+		panic("unknown huge kind " + kind)
+	}
+	return a, b
 }
